@@ -25,7 +25,8 @@ LABEL_FAMILIES = {
     # labels that are equal-but-not-identical objects when re-created (ints outside the small-int cache,
     # strings built at run time), labels whose hashes collide (hash(-1) == hash(-2)) and whose set
     # iteration order is not ascending, strings of mixed length
-    "big": lambda n: [1000, 300, 70000, 5000, 2 ** 40 + 1, 999, 800, 123456, 257, 4096][:n],
+    # ... and whole numbers beyond 2**53 that differ by one (floats cannot tell them apart; all of them fit a signed 64-bit word)
+    "big": lambda n: [2 ** 53 + 1, 300, 2 ** 53, 5000, 2 ** 40 + 1, 999, 800, 123456, 257, 4096][:n],
     "neg": lambda n: [-1, -2, 13, 8, -7, 21, 10, -30, 16, 9][:n],
     # labels whose decimal / string concatenations collide: (1, 2) vs (12,), ("a", "bc") vs ("ab", "c")
     "cat": lambda n: [1, 2, 12, 21, 11, 112, 121, 211, 22, 122][:n],
